@@ -65,3 +65,15 @@ Inductive wstmt :=
 | WSDeleteWhileOver (e : wexpr)                   (* file_set.delete_oldest_while_over_max_len(e).unwrap() *)
 | WSWriteBuffer                                   (* file.write_all(&buffer).unwrap()   (LogFile::write_all: len += buffer.len()) *)
 | WSClearBuffer.                                  (* buffer.clear() *)
+
+(* PrefixFileSet (src/log/prefix_file_set.rs) *)
+Inductive pf_field := PFmtime | PFpath | PFlen.
+(* delete_oldest, statement by statement *)
+Inductive dstmt :=
+| DPeekUnwrap          (* let file = self.files.peek().unwrap() *)
+| DRemoveFileOrErr     (* remove_file(&file.path).map_err(..)? *)
+| DLenSubFileLen       (* self.len -= file.len *)
+| DPop                 (* self.files.pop() *)
+| DOk.                 (* Ok(()) *)
+Inductive loop_cmp := LcLt | LcLe | LcGt | LcGe.
+Inductive pstmt := PLenAddFileLen | PHeapPush.
